@@ -647,6 +647,16 @@ def run_programs(chk, tier, rng):
     jobs.append({"id": "defect2", "files": {"main.go": DEFECT_CLOSE_NIL}, "variants": ["plain"], "native": True})
     jobs.append({"id": "nondet", "files": {"main.go": NONDET_SELECT}, "variants": ["plain"], "native": True})
     res = {r["id"]: r for r in progs.run_jobs(jobs)}
+    # a run that hit the wall-clock limit on a loaded machine is repeated alone with a generous limit
+    for attempt in range(2):
+        slow = [j for j in jobs if any(x.get("class") == "timeout" for x in res[j["id"]]["runs"].values())]
+        if not slow:
+            break
+        chk.count("prog:rerun-after-timeout", len(slow))
+        for j in slow:
+            j["timeout"] = 120
+        for r in progs.run_jobs(slow, par=2):
+            res[r["id"]] = r
     for P, trace, ending, script in keep:
         r = res[P["id"]]["runs"]["plain"]
         t, e = progs.observe_js(r)
